@@ -36,23 +36,7 @@ impl WindowAccumulator for IdCollector {
     }
 }
 
-/// Model: what must be emitted after each element and at the end of an iteration.
-/// Returns (emissions after element i (at most one group), emission at the end).
-pub fn model(n: usize, s: usize, exact: bool, len: usize) -> (Vec<Option<(usize, usize)>>, Option<(usize, usize)>) {
-    let mut per = vec![None; len];
-    let mut j = 0;
-    while j * s + n <= len {
-        per[j * s + n - 1] = Some((j * s, j * s + n));
-        j += 1;
-    }
-    // j is now the oldest incomplete group
-    let end = if !exact && j * s < len {
-        Some((j * s, len))
-    } else {
-        None
-    };
-    (per, end)
-}
+use crate::winmodel::count_model as model;
 
 struct DirectCase {
     n: usize,
